@@ -116,6 +116,8 @@ type cEnv struct {
 	// loops permits bounded execution of for-statements (used only for the
 	// finite cursor automaton of the parsers; 64 iterations at most)
 	loops bool
+	// loopMax raises the iteration bound (byte scanners over concrete strings)
+	loopMax int
 	// ratArith permits exact rational + - * (used only on one-decimal table
 	// values: differences of MacroVector scores)
 	ratArith bool
@@ -135,7 +137,7 @@ func newCEnv(p *Pkg, bytes []uint8) *cEnv {
 }
 
 func (e *cEnv) child() *cEnv {
-	return &cEnv{p: e.p, bytes: e.bytes, vars: map[types.Object]Val{}, hook: e.hook, depth: e.depth + 1, steps: e.steps, ratArith: e.ratArith, loops: e.loops, sym: e.sym, unkFlow: e.unkFlow}
+	return &cEnv{p: e.p, bytes: e.bytes, vars: map[types.Object]Val{}, hook: e.hook, depth: e.depth + 1, steps: e.steps, ratArith: e.ratArith, loops: e.loops, loopMax: e.loopMax, sym: e.sym, unkFlow: e.unkFlow}
 }
 
 // bytesFromCodes assembles receiver bytes from metric codes through Set's
@@ -349,6 +351,23 @@ func (e *cEnv) assign(lhs ast.Expr, v Val, define bool) error {
 	if ix, ok := lhs.(*ast.IndexExpr); ok {
 		if id, ok := ix.X.(*ast.Ident); ok {
 			if obj := e.p.Info.Uses[id]; obj != nil {
+				if _, isSl := obj.Type().Underlying().(*types.Slice); isSl {
+					// a slice shares its backing array with whoever handed it over: write in place
+					if cur, has := e.vars[obj]; has && cur.K == VList {
+						iv, err := e.eval(ix.Index)
+						if err != nil {
+							return err
+						}
+						if iv.K != VInt {
+							return undecidedf(lhs, "slice index is not a concrete integer")
+						}
+						if iv.I < 0 || int(iv.I) >= len(cur.T) {
+							return &panicked{pos: lhs.Pos(), msg: fmt.Sprintf("index %d out of range [0,%d)", iv.I, len(cur.T))}
+						}
+						cur.T[iv.I] = v
+						return nil
+					}
+				}
 				if _, isArr := obj.Type().Underlying().(*types.Array); isArr {
 					if cur, has := e.vars[obj]; has && cur.K == VList {
 						iv, err := e.eval(ix.Index)
@@ -407,6 +426,19 @@ func (e *cEnv) exec(s ast.Stmt) (ctrl, Val, error) {
 	case *ast.ExprStmt:
 		_, err := e.eval(st.X)
 		return cNext, Val{}, err
+	case *ast.DeferStmt:
+		// a deferred call into another package (handing a buffer back to its
+		// pool) cannot influence what the fragment computes; its arguments are
+		// evaluated now, as Go does
+		if fn := calleeOf(e.p.Info, st.Call); fn != nil && fn.Pkg() != nil && fn.Pkg() != e.p.P.Types {
+			for _, a := range st.Call.Args {
+				if _, err := e.eval(a); err != nil {
+					return cNext, Val{}, err
+				}
+			}
+			return cNext, Val{}, nil
+		}
+		return cNext, Val{}, undecidedf(s, "statement %T outside the fragment language", s)
 	case *ast.DeclStmt:
 		gd, ok := st.Decl.(*ast.GenDecl)
 		if !ok || gd.Tok != token.VAR {
@@ -670,7 +702,7 @@ func (e *cEnv) exec(s ast.Stmt) (ctrl, Val, error) {
 			}
 		}
 		for it := 0; ; it++ {
-			if it > 64 {
+			if it > 64 && (e.loopMax == 0 || it > e.loopMax) {
 				return cNext, Val{}, undecidedf(s, "loop does not terminate within 64 iterations on the finite model")
 			}
 			if st.Cond != nil {
@@ -1063,6 +1095,12 @@ func (e *cEnv) eval(x ast.Expr) (Val, error) {
 			return Val{}, undecidedf(x, "field %s of %s", n.Sel.Name, base)
 		}
 		return Val{}, undecidedf(x, "selector outside the fragment language")
+	case *ast.TypeAssertExpr:
+		// x.(T): the dynamic value (the evaluator's values carry no interface wrapper)
+		if n.Type == nil {
+			return Val{}, undecidedf(x, "type switch guard")
+		}
+		return e.eval(n.X)
 	case *ast.UnaryExpr:
 		if n.Op == token.AND {
 			// &T{...} error objects, &obj
